@@ -455,6 +455,27 @@ func c01Messages(w *core.W, j int) {
 			w.Violation("C01/msg-repack-error"+cls, fmt.Sprintf("re-packing a decoded message failed: %v", err), wit)
 		} else if !bytes.Equal(again, wire) {
 			w.Violation("C01/msg-repack-mismatch"+cls, "Unpack→Pack differs: "+diffWin(again, wire), wit)
+		} else if cls == "" && len(wire) <= 65535 {
+			// packing is lossless whichever way the caller asks for it: the compressed form decodes to
+			// a message that packs (uncompressed) to the same canonical octets, letter case included
+			b3, _ := buildMsgAny(m)
+			b3.Compress = true
+			var pc, p3 []byte
+			var e3 error
+			m3 := new(dns.Msg)
+			if !w.Guard("Msg.Pack(compress)/Unpack/Pack", wit, func() {
+				if pc, e3 = b3.Pack(); e3 == nil {
+					if e3 = m3.Unpack(pc); e3 == nil {
+						m3.Compress = false
+						p3, e3 = m3.Pack()
+					}
+				}
+			}) {
+				w.Count("compressed_roundtrips", 1)
+				if e3 != nil || !bytes.Equal(p3, wire) {
+					w.Violation("C01/msg-compressed-roundtrip", fmt.Sprintf("Pack with compression -> Unpack -> Pack: err=%v: %s", e3, diffWin(p3, wire)), wit)
+				}
+			}
 		}
 		if w.WantSample() {
 			w.Sample(map[string]any{"kind": "message", "wire": hx(wire), "records": len(m.An) + len(m.Ns) + len(m.Ar)})
